@@ -17,6 +17,7 @@ def configs(tier):
     q = []
     for an, names in ALPHABETS.items():
         q.append(('%s / two parents' % an, dict(fam_kw=dict(shape='two_parents', names=names))))
+    q.append(('same name under interleaved parents / three branches', dict(fam_kw=dict(shape='three_branches', names=('x', 'y', 'item')))))
     q.append(('same name at many depths / deep', dict(fam_kw=dict(shape='deep', names=('a', 'b', 'r')))))
     q.append(('attributes vs children vs text / attrs', dict(fam_kw=dict(shape='attrs', names=('text', 'a', 'type', 'text_attr')))))
     if tier == 'quick': return q
